@@ -148,6 +148,7 @@ func Run(o Options) int {
 	isDep := map[string]bool{}      // units verified because a unit of the property uses their contract
 	have := map[string]bool{}       // unit keys scheduled
 	assumedModels := map[string]bool{} // interface-method contracts used (model contracts, implementations not checked)
+	refinedModels := map[string]bool{} // interface-method contracts used and proved for the coupled implementation
 	for _, u := range units {
 		have[u.Key] = true
 	}
@@ -191,7 +192,24 @@ func Run(o Options) int {
 						isDep[du.Name] = true
 						next = append(next, du)
 					} else if w.ContractKind(k) == "interface-model" {
-						assumedModels[k] = true
+						// a model contract of an interface method: verified by refinement where an implementing type is
+						// coupled with the interface ("represents"), assumed otherwise
+						refined := false
+						for _, ik := range w.ImplKeys(k) {
+							if du := w.UnitByKey(ik); du != nil {
+								refined = true
+								if !have[ik] {
+									have[ik] = true
+									isDep[du.Name] = true
+									next = append(next, du)
+								}
+							}
+						}
+						if refined {
+							refinedModels[k] = true
+						} else {
+							assumedModels[k] = true
+						}
 					}
 				}
 			}
@@ -435,6 +453,9 @@ func Run(o Options) int {
 			models = append(models, vc.ShortKey(k))
 		}
 		sort.Strings(models)
+		for k := range refinedModels {
+			notes = append(notes, "interface model contract proved for its coupled implementation (refinement): "+vc.ShortKey(k))
+		}
 		for k := range isDep {
 			deps = append(deps, k)
 		}
